@@ -144,8 +144,8 @@ func vhSameRecs(a, b []vhRec) bool {
 // C14d: a one-segment fix-up that replaces, removes or adds a record is reflected exactly; all other records are unchanged.
 // The record is chosen by a symbolic index (case-split by the solver over every record of the table).
 func VH_C14_Fix() {
-	saved := dataInUse
-	defer func() { dataInUse = saved }()
+	saved, savedNames := dataInUse, namesInUse
+	defer func() { dataInUse, namesInUse = saved, savedNames }()
 	rs := vhRecords()
 	lo, hi := vParam("LO"), vParam("HI")
 	if hi >= len(rs) {
@@ -156,7 +156,7 @@ func VH_C14_Fix() {
 		return
 	}
 	i := vConcretize(vInt("i", lo, hi))
-	op := vConcretize(vInt("op", 0, 2))
+	op := vConcretize(vInt("op", 0, 3))
 	r := rs[i]
 	// the day must be unique in the table for "the record of that day" to be well defined
 	n := 0
@@ -188,6 +188,28 @@ func VH_C14_Fix() {
 				want = append(want, x)
 			}
 		}
+	case 3: // a fix-up that extends the festival names, then replaces and removes a record carrying the new name
+		if len(namesInUse) > 9 {
+			vReach("C14d")
+			return
+		}
+		names := append(append([]string{}, namesInUse...), "新节")
+		nr := r
+		nr.y, nr.ty, nr.name = r.y+30, r.ty+30, len(names)-1
+		flag, other := "1", "0"
+		if nr.work {
+			flag, other = "0", "1"
+		}
+		Fix(names, vhSeg(nr, flag))
+		h := GetHolidayByYmd(nr.y, nr.m, nr.d)
+		vAssert("fix:new-name-added", vhSame(h, nr))
+		Fix(nil, vhSeg(nr, other)) // replace: work flag toggled
+		h = GetHolidayByYmd(nr.y, nr.m, nr.d)
+		vAssert("fix:new-name-replaced", h != nil && h.IsWork() == !nr.work && h.GetName() == "新节")
+		seg := vhSeg(nr, other)
+		Fix(nil, seg[:8]+"~"+seg[9:]) // remove
+		vAssert("fix:new-name-removed", GetHolidayByYmd(nr.y, nr.m, nr.d) == nil)
+		want = append(want, rs...)
 	default: // add a record for a day that has none: the same month-day thirty years later
 		nr := r
 		nr.y, nr.ty = r.y+30, r.ty+30
@@ -207,6 +229,8 @@ func VH_C14_Fix() {
 	vAssert("fix:table-exact", vhSameRecs(vhRecords(), want))
 	h := GetHolidayByYmd(r.y, r.m, r.d)
 	switch op {
+	case 3:
+		vAssert("fix:original-kept", vhSame(h, r))
 	case 0:
 		vAssert("fix:replaced-visible", h != nil && h.IsWork() == !r.work && h.GetName() == namesInUse[r.name])
 	case 1:
